@@ -43,7 +43,7 @@ def validate(cases):
         sc.cleanup()
 
 
-def run(prop):
+def run(prop, extra_cov=None, prior=0):
     t0 = time.time()
     tr, sd = core.tier(), core.seed()
     V = core.Verdicts(prop)
@@ -93,8 +93,10 @@ def run(prop):
            "evaluations": nev, "distinct_nontrivial": len(cases),
            "rule": "every single operation (all argument choices of MC_Edit) on 3 curated base nets + simulated 3-op histories; "
                    "all distinct histories are non-trivial (each performs at least one API call on a populated net)"}
+    if extra_cov:
+        cov.update(extra_cov)
     rc = V.finish()
-    core.write_evidence(prop, "model_checking", cov, time.time() - t0, len(V.violations),
+    core.write_evidence(prop, "model_checking", cov, time.time() - t0, len(V.violations) + prior,
                         assumptions=["row identity is carried in the name column; `rest` digests cover all other columns, `rtag` the stored result row",
                                      "base nets are the three nets of MC_Edit.BaseNet built with create_* (harness/edit.base_net)"])
     print("%s %s: model states=%d, histories=%d, operations=%d, violations=%d, known=%d, notes=%s, %.0fs"
@@ -102,8 +104,35 @@ def run(prop):
     return rc
 
 
+def subnet_part(V, tr, sd):
+    """a subnet made of a complete supplied region reproduces that region's results (Trace_PF.C17_Subnet)"""
+    import random
+    from . import c04, c01, pf
+    rnd = random.Random(sd + 3)
+    emit = dict(MaxJ="= 4", MaxE="= 4", MaxN="= 3", MaxPV="= 2", Kinds="<- KindsAll", NKinds="<- NKindsAll", TogJ="= TRUE")
+    r, nets = c04.gen_nets(emit, simulate="num=%d" % (40 if tr == "quick" else 700), depth=18, seed=5000 + sd, timeout=1200)
+    nets = [n for n in nets if n["sup"]]
+    cap = 900 if tr == "quick" else 25000
+    if len(nets) > cap:
+        nets = rnd.sample(nets, cap)
+    jobs = [{"id": "sub%d" % i, "an": n["net"], "params": c01.row_params(n["net"]), "opts": dict(c04.PF_OPTS), "check": ["C17S"]}
+            for i, n in enumerate(nets)]
+    cases = [c for c in core.pmap(pf.run_case_subnet, jobs, chunksize=16) if "skip" not in c]
+    res, fails = c04.validate(cases)
+    by_id = {c["id"]: c for c in cases}
+    for f in fails:
+        for cl in f["clauses"]:
+            V.report(cl[0], cl[1], by_id[f["id"]], text="detail=%s case=%s" % (cl[2:], f["id"]))
+    return {"subnet_cases": len(cases), "subnet_pairs_both_returned": sum(1 for c in cases if c.get("soutcome") == "returned"),
+            "subnet_partial_regions": sum(1 for c in cases if "snet" in c and len(c["snet"]["J"]) < len(c["net"]["J"]))}
+
+
 def main():
-    return run("C17")
+    V = core.Verdicts("C17")
+    extra = subnet_part(V, core.tier(), core.seed())
+    rc1 = V.finish()
+    rc2 = run("C17", extra_cov=extra, prior=len(V.violations))
+    return 1 if (rc1 or rc2) else 0
 
 
 def replay(path, prop="C17"):
